@@ -14,10 +14,10 @@ import bytecode  # noqa: E402
 from svm import I, InternalFault, Unsupported  # noqa: E402
 from vcommon import VERIF, seed, tier  # noqa: E402
 
-DEFAULTS = [11, 22, -33]
-DEFAULT_SRC = ["11", "dflt_b()", "-33"]  # a literal, a call of a top-level function, a negative literal
+DEFAULTS = [11, 22, -33, 44]
+DEFAULT_SRC = ["11", "dflt_b()", "-33", "44"]  # a literal, a call of a top-level function, a negative literal
 PRELUDE = "fn dflt_b() -> int { 22 }\n"
-KINDS = ["free", "member", "struct", "variant"]
+KINDS = ["free", "member", "struct", "variant", "variant_dot", "member_qualified"]
 
 
 def shapes(n):
@@ -50,6 +50,9 @@ def decl(kind, n, nd, idx):
                 % (idx, idx, ", ".join(params), ", ".join("p%d" % p for p in range(n))))
     if kind == "struct":
         return "type Rec%d = {\n%s\n}\n" % (idx, "\n".join("  " + x for x in params))
+    if kind == "member_qualified":
+        return ("type Holder%d = {\n  h: int\n}\nextend Holder%d {\n  fn m(self, %s) -> array<int> { [%s] }\n}\n"
+                % (idx, idx, ", ".join(params), ", ".join("p%d" % p for p in range(n))))
     return "type Enm%d =\n  | Vr(%s)\n" % (idx, ", ".join(params))
 
 
@@ -62,6 +65,13 @@ def call(kind, n, idx, k, named, argnames):
         return "Holder%d(0).m(%s)" % (idx, a)
     if kind == "struct":
         return "{ let r = Rec%d(%s)\n  [%s] }" % (idx, a, ", ".join("r.p%d" % p for p in range(n)))
+    if kind == "member_qualified":
+        # the fully qualified spelling of a member call: the receiver is the first positional argument
+        return "Holder%d.m(Holder%d(0)%s%s)" % (idx, idx, ", " if a else "", a)
+    if kind == "variant_dot":
+        # the constructor is named with a leading dot and its enum comes from the annotation
+        return "{ let e: Enm%d = .Vr(%s)\n  match e {\n    .Vr(%s) -> [%s]\n  } }" % (
+            idx, a, ", ".join("p%d = q%d" % (p, p) for p in range(n)), ", ".join("q%d" % p for p in range(n)))
     return "match Enm%d.Vr(%s) {\n    .Vr(%s) -> [%s]\n  }" % (idx, a, ", ".join("p%d = q%d" % (p, p) for p in range(n)), ", ".join("q%d" % p for p in range(n)))
 
 
@@ -69,17 +79,10 @@ def run(outcome, _harnesses):
     t = tier()
     rng = random.Random(seed())
     cases = []
-    for n in (1, 2, 3):
+    for n in ((1, 2, 3, 4) if t == "thorough" else (1, 2, 3)):
         for sh in shapes(n):
             for kind in KINDS:
                 cases.append((n, sh, kind))
-    if t != "thorough":
-        fixed = random.Random(3)
-        core = fixed.sample(cases, 70)
-        extra = rng.sample(cases, 20)
-        # always include the all-named-reversed and the all-omitted shapes of arity 3 for every callee kind
-        must = [(3, (2, 1, (2, 1), ()), k) for k in KINDS] + [(3, (3, 0, (), (0, 1, 2)), k) for k in KINDS] + [(3, (0, 0, (2, 0, 1), ()), k) for k in KINDS]
-        cases = must + core + extra
     rdir = os.path.join(VERIF, "replays", "C18")
 
     def build(cases):
@@ -98,6 +101,7 @@ def run(outcome, _harnesses):
     indexed = list(enumerate(cases))
     src, full, fns = build(indexed)
     compile_failures = 0
+    rejected = {}
     try:
         prog = bytecode.compile_source(full)
     except bytecode.CompileError:
@@ -111,8 +115,14 @@ def run(outcome, _harnesses):
             except bytecode.CompileError as e:
                 compile_failures += 1
                 idx, n, nd, k, named, omitted, kind = f1[0]
-                key = "%s:%d:%d:%d:%s:%s:compile" % (kind, n, nd, k, "".join(map(str, named)), "".join(map(str, omitted)))
                 crash = "panicked at" in str(e)
+                shape_key = "%s:%d:%d:%d:%s:%s:compile" % (kind, n, nd, k, "".join(map(str, named)), "".join(map(str, omitted)))
+                # a rejection with a diagnostic is one finding per callee spelling (the shapes are listed in the replay); a crash is per shape
+                key = shape_key if crash else "%s:named_or_default_call_rejected" % kind
+                if not crash:
+                    rejected.setdefault(key, []).append(shape_key)
+                    if len(rejected[key]) > 1:
+                        continue
                 what = ("the compiler panics on" if crash else "the compiler rejects") + " a call that the positional form of the same declaration accepts"
                 path = write(rdir, key, one, what + ": " + str(e)[-300:].replace("\n", " "))
                 if crash or positional_compiles(kind, n, nd):
@@ -183,9 +193,11 @@ def run(outcome, _harnesses):
         entry["verdict"] = verdict
         entry["paths"] = len(done)
         samples.append(entry)
+    mis_n, mis_ok, mis_samples = misuse_family(outcome, rdir)
     cov = {
         "evaluations": n_obl,
         "distinct_nontrivial": n_hold,
+        "misuse_calls_enumerated_not_solver_decided": {"cases": mis_n, "rejected_with_a_diagnostic": mis_ok, "samples": mis_samples[:24]},
         "rule": "one evaluation = one bytecode path of one call shape (callee kind x arity x defaulted suffix x positional prefix x permutation "
                 "of named arguments x omitted defaulted parameters), compiled by the real compiler and executed symbolically with symbolic "
                 "argument values; z3 refutes that any parameter receives a value other than in the positional call with defaults filled in; "
@@ -194,15 +206,71 @@ def run(outcome, _harnesses):
         "programs": 1,
         "call_shapes": len(fns),
         "call_shapes_not_compiled": compile_failures,
+        "call_shapes_rejected_by_spelling": {k: len(v) for k, v in rejected.items()},
         "functions_encoded": ["statics (argument reordering / default insertion) and translate_bytecode (run for real)", "engine S instruction model"],
         "bounds": "arity <= 3; defaults on a suffix of the parameters: p0 = 11, p1 = dflt_b() (a call of a top-level function), p2 = -33; callee kinds: free function, member function, "
-                  "struct constructor, enum variant constructor; quick = 102 shapes (12 fixed + 70 fixed sample + 20 by VERIF_SEED), thorough = all "
-                  "%d shapes. The misuse half of the property (diagnostics for unknown/duplicate/missing/positional-after-named arguments) is a "
-                  "compile-time property and is NOT claimed." % (len(fns) if t == "thorough" else sum(len(shapes(n)) for n in (1, 2, 3)) * 4),
+                  "struct constructor, enum variant constructor (qualified `Enm.Vr(..)` and leading-dot `.Vr(..)`), fully qualified member call `Holder.m(obj, ..)`; quick = all shapes of arity <= 3, thorough = arity <= 4 (%d shapes here). The misuse half of the property (unknown, duplicate, missing, positional-after-named, too many arguments) has no value "
+                  "dimension: its call shapes are enumerated and the real checker must reject each (reported separately, not solver-decided)." % len(fns),
         "queries": queries,
         "solver_s": round(solver_s, 2),
     }
     return "model_checking", cov, ["the S instruction model (validated against the real VM in ./check C02)", "argument expressions are side-effect free"]
+
+
+def misuse_shapes(n, nd):
+    """call shapes that must be rejected: (description, argument list as source text)"""
+    first_default = n - nd
+    names = ["p%d" % p for p in range(n)]
+    vals = ["a%d" % p for p in range(n)]
+    out = []
+    full_named = ["%s = %s" % (names[p], vals[p]) for p in range(n)]
+    out.append(("unknown name", ", ".join(full_named + ["zz = a0"])))
+    out.append(("named twice", ", ".join(full_named + [full_named[-1]])))
+    out.append(("positional and named for the same parameter", ", ".join([vals[0]] + full_named)))
+    if n >= 2:
+        out.append(("positional after named", ", ".join([full_named[0], vals[1]] + full_named[2:])))
+        out.append(("positional and named for the same parameter (last)", ", ".join(vals[:n] + [full_named[n - 1]])))
+    if first_default > 0:
+        miss = [full_named[p] for p in range(n) if p != 0]
+        out.append(("required parameter missing", ", ".join(miss)))
+    out.append(("too many positional", ", ".join(vals + ["a0"])))
+    return out
+
+
+def misuse_family(outcome, rdir):
+    """the diagnostics half of the property.  There is no value dimension here: the call shapes are ENUMERATED and the verdict is the
+    real checker's (this part is not solver-decided; it is reported separately in the evidence)."""
+    n_cases = n_ok = 0
+    samples = []
+    for kind in ("free", "member", "struct", "variant"):
+        for n, nd in ((2, 0), (2, 1), (3, 2), (3, 3)):
+            for what, args in misuse_shapes(n, nd):
+                src = PRELUDE + decl(kind, n, nd, 0)
+                if kind == "free":
+                    c = "callee_0(%s)" % args
+                elif kind == "member":
+                    c = "Holder0(0).m(%s)" % args
+                elif kind == "struct":
+                    c = "Rec0(%s)" % args
+                else:
+                    c = "Enm0.Vr(%s)" % args
+                src += "fn vf_0(%s) -> int {\n  let r = %s\n  0\n}\n" % (", ".join("a%d: int" % p for p in range(n)), c)
+                ok, text = bytecode.check_source(src)
+                n_cases += 1
+                entry = {"callee": kind, "arity": n, "defaults": nd, "misuse": what, "call": c, "verdict": "rejected" if not ok else "ACCEPTED"}
+                if ok:
+                    key = "misuse:%s:%s" % (kind, what.replace(" ", "_"))
+                    if outcome.findings.lookup("C18", key) is not None:
+                        outcome.violation(key, what, None)
+                    else:
+                        outcome.violation(key, "a call with %s (%s) is accepted without a diagnostic" % (what, c), write(rdir, key, src, "accepted: " + what))
+                elif "checker crashed" in text or "panicked" in text:
+                    key = "misuse:%s:%s:crash" % (kind, what.replace(" ", "_"))
+                    outcome.violation(key, "the checker crashes on a call with %s (%s)" % (what, c), write(rdir, key, src, text[-300:]))
+                else:
+                    n_ok += 1
+                samples.append(entry)
+    return n_cases, n_ok, samples
 
 
 def panic_line(text):
